@@ -1,4 +1,5 @@
 import BadgerModel.DirLock
+import BadgerModel.Extracted
 /-!
 # C35 — directory locking excludes a second writer
 
@@ -554,6 +555,45 @@ theorem C35_release (ρ : Nat → Nat) (s : Sys) (hr : Reach ρ s) (x : Inst) (h
     obtain ⟨l2, hl2⟩ := fl a.ro
     simp [hl2]
 
+namespace DirLock
+
+theorem cntS_append (a b : List Inst) (g : Guard) : cntS (a ++ b) g = cntS a g + cntS b g := by
+  simp [cntS]
+
+end DirLock
+
+/-- **No two handles share a directory unless both are read-only.** In every reachable state,
+    two different open instances (`x` before `y` in the list of open instances) holding a guard
+    on the same directory `d` — as `Dir` or as `ValueDir` of either — both hold it shared: no two
+    read-write handles share `Dir` or `ValueDir`, and a read-write handle shares with nobody. -/
+theorem C35_no_shared_rw (ρ : Nat → Nat) (s : Sys) (hr : Reach ρ s) (l1 l2 l3 : List Inst)
+    (x y : Inst) (hs : s.insts = l1 ++ x :: (l2 ++ y :: l3)) (d : Nat) (rx ry : Bool)
+    (hx : (⟨d, rx⟩ : Guard) ∈ x.guards) (hy : (⟨d, ry⟩ : Guard) ∈ y.guards) :
+    rx = true ∧ ry = true := by
+  have hinv := Reach_Inv hr d
+  have hxin : x ∈ s.insts := by rw [hs]; simp
+  have hyin : y ∈ s.insts := by rw [hs]; simp
+  have cx := cntS_pos_of_mem hxin hx
+  have cy := cntS_pos_of_mem hyin hy
+  have two : ∀ g : Guard, x.guards.count g + y.guards.count g ≤ cntS s.insts g := by
+    intro g
+    rw [hs, cntS_append, cntS_cons, cntS_append, cntS_cons]; omega
+  cases rx <;> cases ry
+  · -- two exclusive guards on one directory
+    have := two ⟨d, false⟩
+    have a : 1 ≤ x.guards.count ⟨d, false⟩ := List.count_pos_iff.mpr hx
+    have b : 1 ≤ y.guards.count ⟨d, false⟩ := List.count_pos_iff.mpr hy
+    rcases hinv with ⟨h1, _⟩ | ⟨h1, _, _⟩ <;> omega
+  · rcases hinv with ⟨h1, _⟩ | ⟨_, h2, _⟩ <;> omega
+  · rcases hinv with ⟨h1, _⟩ | ⟨_, h2, _⟩ <;> omega
+  · exact ⟨rfl, rfl⟩
+
+/-- **T-gen.** The decision to lock `ValueDir` separately in `Open` is the comparison
+    `absValueDir != absDir` of the two absolute path strings (regenerated from /repo's db.go on
+    every run): exactly the model's `a.vdirPath = a.dirPath` test. Any other test (a prefix
+    test, a missing test) makes this `decide` fail. -/
+theorem C35_tgen_valuedir_cmp : Extracted.op_open_valuedir_cmp = "!=" := by decide
+
 /-! ### non-vacuity: concrete scripts -/
 
 section examples
@@ -575,6 +615,8 @@ example : (run ρ0 Sys.init [.openDb roB, .openDb roD]).locks 0 = LockSt.shared 
 example : (step ρ0 (run ρ0 Sys.init [.openDb rwA, .closeDb 1]) (.openDb roB)).2 = Res.ok := by decide
 -- a read-write open whose Dir and ValueDir are two names of one directory conflicts with itself
 example : (step ρ0 Sys.init (.openDb ⟨5, 0, 0, 3, false, false, false⟩)).2 = Res.locked := by decide
+-- two handles with different Dir but the same ValueDir: the second is refused
+example : (step ρ0 (run ρ0 Sys.init [.openDb rwA]) (.openDb rwC)).2 = Res.locked := by decide
 -- a killed process loses its lock but leaves the pid file
 example : (run ρ0 Sys.init [.openDb rwA, .crash 0]).locks 0 = LockSt.free ∧
     (run ρ0 Sys.init [.openDb rwA, .crash 0]).pidf 0 = some 0 := by decide
